@@ -145,6 +145,25 @@ def grid_ops():
         rows.append(("b64.dec", {"j": j, "ol": 3}))
         rows.append(("b64.dec", {"j": j, "ol": 2}))
     g["C08"] = rows
+    # C19: `jose fmt` programs: every option (with arguments from the small alphabet of the check) after each stack
+    # prefix, and every pair of options after two of them; printed with -o- at the end
+    from props import c19
+    V = c19.opt_variants()
+    V1 = [v for v in V if not (v[0] == "j" and isinstance(v[1], float))]
+    pushes = [[], [("j", [1, 2, 3])], [("j", {"a": 1, "b": [2]})], [("j", "str")], [("j", [1, 2, 3]), ("j", {"k": 0})], [("j", {"a": 1}), ("j", [7, 8, 9, 10])],
+              [("j", [[1], [2]]), ("g", "0")]]
+    rows = []
+    for pre in pushes:
+        for v in V1:
+            rows.append(pre + [v, ("o", "-")])
+    small = [v for v in V1 if v[0] in "XOAEUcaxlegsdtMiQ" and (v[1] in (None, 0, 1, -1, "a", "0", "-1"))]
+    for pre in (pushes[6],):
+        for v in small:
+            for w in small:
+                rows.append(pre + [v, w, ("o", "-")])
+    def hasreal(prog):
+        return any("1.5" in json.dumps(p) for o, p in prog)
+    g["C19"] = [("cli.run", {"argv": c19.argv_of(pr)}) for pr in rows if not hasreal(pr)]
     return g
 
 
@@ -165,7 +184,16 @@ def generate_grid(info):
         res = r.stdout.splitlines()
         if len(res) != len(g[pid]):
             raise SystemExit("translator-failed: grid %s: %d answers for %d operations" % (pid, len(res), len(g[pid])))
-        rows = ["  R %s %s %s" % (lean_str(o), ljs(a), ljs(json.loads(x))) for (o, a), x in zip(g[pid], res)]
+        keep = []
+        for (o, a), x in zip(g[pid], res):
+            rj = json.loads(x)
+            if pid == "C19":
+                letters = [t for t in a["argv"][1:] if len(t) == 2 and t[0] == "-" and not t[1].isdigit()]
+                st = rj.get("status")
+                if "crash" in rj or (st and 0 < st <= len(letters) and letters[st - 1] in ("-o", "-f")):
+                    continue        # a failing output option has already written part of a circular value
+            keep.append(((o, a), rj))
+        rows = ["  R %s %s %s" % (lean_str(o), ljs(a), ljs(rj)) for (o, a), rj in keep]
         CH = 50
         names = []
         for c in range(0, len(rows), CH):
